@@ -31,8 +31,8 @@ fn sym_own() -> ArrProps {
     let mut p = ArrProps::EMPTY;
     let has_a: bool = kani::any();
     let has_b: bool = kani::any();
-    if has_a { p.slot[K_A] = Held::I(kani::any()); }
-    if has_b { p.slot[K_B] = Held::I(kani::any()); }
+    if has_a { p.a = Some(kani::any()); }
+    if has_b { p.b = Some(kani::any()); }
     p
 }
 
